@@ -16,8 +16,8 @@ theorem safe_methods_pinned :
       "transpose".toList, "unstack".toList] := by decide
 
 theorem unit_from_dtype_kind_pinned :
-    Gen.unitFromDtypeKind = [('b', "onoff".toList), ('i', "-".toList), ('u', "-".toList), ('f', "-".toList),
-      ('M', "-".toList), ('O', "text".toList), ('S', "text".toList), ('U', "text".toList)] := by decide
+    Gen.unitFromDtypeKind = [('M', "-".toList), ('O', "text".toList), ('S', "text".toList), ('U', "text".toList),
+      ('b', "onoff".toList), ('f', "-".toList), ('i', "-".toList), ('u', "-".toList)] := by decide
 
 theorem units_special_pinned : Gen.unitsSpecial = ["onoff".toList, "text".toList] := by decide
 
